@@ -42,9 +42,12 @@ def gm_stage(run, thorough):
     inp = os.path.join(OUT, "traces", "C03-gm-in.ndjson")
     outp = os.path.join(OUT, "traces", "C03-gm-out.ndjson")
     write_ndjson(inp, scripts)
-    vh(["gm-replay", "--in", inp, "--out", outp])
-    res = read_ndjson(outp)
-    if len(res) != len(scripts):
+    res, died = vh_records(["gm-replay", "--in", inp], outp)
+    if died:
+        i = died["during"].get("i", len(res))
+        run.violation({"kind": "crash", "exec": "gm-replay", "rc": died["rc"], "calls": len(scripts[i]["hist"]) if i < len(scripts) else -1}, [scripts[min(i, len(scripts) - 1)]], header={"exec": "gm-replay"})
+        scripts = scripts[:len(res)]
+    elif len(res) != len(scripts):
         raise ToolError("gm-replay answered %d of %d" % (len(res), len(scripts)))
     bad = [x for x in res if not x["ok"]]
     run.traces += len(res) - len(bad)
